@@ -75,7 +75,9 @@ func (g *storeGenState) freshTime(target, typ, key string) int64 {
 }
 
 func (g *storeGenState) value() uint64 {
-	switch g.r.Intn(14) {
+	switch g.r.Intn(15) {
+	case 14:
+		return 0x8000000000000000 // negative zero: the value zero
 	case 0:
 		return math.Float64bits(0)
 	case 1:
